@@ -330,6 +330,50 @@ func runC04(o Opts) error {
 			s.Add(term, map[string]any{"op": oc.Name, "opcoq": oc.Coq, "cfgcoq": cfg.coq(), "script": sc.coq(), "result": res}, "api/"+oc.Name, true)
 		}
 	}
+	// 2a. discovery: any list of replies - valid, repeated (A A B B, A B A B ...), serial number 0, truncated, fuzzed
+	gd := getDevicesCase()
+	nDisc := 150
+	if thorough {
+		nDisc = 6000
+	}
+	for i := 0; i < nDisc; i++ {
+		pool := []uint32{405419896, 303986753, 0, genID(r)}
+		cfg := Cfg{}
+		if r.Intn(2) == 0 {
+			cfg = genCfg(r, pool)
+		}
+		pats := [][]int{{0, 0, 1, 1}, {0, 1, 0, 1}, {0, 0, 0}, {2, 0, 2}, {0, 1, 1, 0, 3, 3, 0}, {3, 2, 2, 3, 1, 1}, {0, 0, 1, 1, 2, 2, 3, 3}}
+		pat := pats[i%len(pats)]
+		if i%3 == 2 {
+			pat = nil
+			for k := r.Intn(10); k > 0; k-- {
+				pat = append(pat, r.Intn(4))
+			}
+		}
+		ds := [][]byte{}
+		for _, k := range pat {
+			d := genReply(r, "GetDeviceResponse", pool[k], i%2, nil)
+			switch r.Intn(9) {
+			case 0:
+				d = d[:r.Intn(64)]
+			case 1:
+				d = fuzzBytes(r, r.Intn(4), fuzzLen(r))
+			}
+			ds = append(ds, d)
+		}
+		sc := Script{Kind: "datagrams", Datagrams: ds}
+		cl := newClient(cfg)
+		cl.f.script = sc
+		res := safeCall(func() string { return gd.Run(cl.u) })
+		apiCalls++
+		if res == "RPanic" {
+			s.Fail(map[string]any{"op": gd.Name, "opcoq": gd.Coq, "cfgcoq": cfg.coq(), "script": sc.coq()}, "GetDevices (or rendering its result) panicked")
+		}
+		if i%6 == 0 || res == "RPanic" {
+			term := "C4Api (CApi " + cfg.coq() + " (" + gd.Coq + ") " + sc.coq() + " " + res + " " + callsCoq(cl.f.calls) + ")"
+			s.Add(term, map[string]any{"op": gd.Name, "opcoq": gd.Coq, "cfgcoq": cfg.coq(), "script": sc.coq(), "result": res}, "api/"+gd.Name, true)
+		}
+	}
 	// 2b. every reply-bearing operation on its VALUE path (echoed card / profile ids as requested, non-zero indices) with
 	// exactly one field replaced by an out-of-domain pattern of its type, and with pairs of adjacent fields so replaced
 	oneBad := 0
@@ -435,11 +479,11 @@ func badPatterns(text string, width int) [][]byte {
 	case "types.Date", "*types.Date":
 		return [][]byte{{0x20, 0x23, 0x02, 0x30}, {0x2a, 0x24, 0x01, 0x01}, {0x20, 0x24, 0x13, 0x01}}
 	case "types.DateTime", "*types.DateTime":
-		return [][]byte{{0x20, 0x23, 0x02, 0x30, 0x12, 0, 0}, {0x20, 0x24, 0x01, 0x01, 0x24, 0, 0}, {0x20, 0x24, 0x01, 0x01, 0x12, 0x6a, 0}}
+		return [][]byte{{0x20, 0x23, 0x02, 0x30, 0x12, 0, 0}, {0x20, 0x24, 0x01, 0x01, 0x24, 0, 0}, {0x20, 0x24, 0x01, 0x01, 0x12, 0x6a, 0}, {0x20, 0x23, 0x12, 0x31, 0x23, 0x59, 0x60}}
 	case "types.SystemDate":
 		return [][]byte{{0x24, 0x13, 0x01}, {0x2a, 0x01, 0x01}}
 	case "types.SystemTime":
-		return [][]byte{{0x24, 0, 0}, {0x12, 0xa0, 0}}
+		return [][]byte{{0x24, 0, 0}, {0x12, 0xa0, 0}, {0x23, 0x59, 0x60}, {0x00, 0x60, 0x00}}
 	case "uint8", "byte":
 		return [][]byte{{0xff}, {0x07}}
 	}
